@@ -107,7 +107,7 @@ func runC02HFor(t *testing.T, c c02hCase, prop string) kit.Outcome {
 			o := kit.Viol(kind+":backlog", "backlog holds %d elements after the waiter returned", st.queue.VerifBacklogLen())
 			viol = &o
 		}
-		msg := w.unwind(c.Stack.effTimeout() + 2*time.Second)
+		msg := w.unwind(c.Stack.unwindWait())
 		w.flush()
 		if viol != nil {
 			return *viol
